@@ -150,6 +150,12 @@ type UpgradeableBeaconState interface {
 	UpgradeMaybe(ctx context.Context, spec *Spec, epc *EpochsContext) error
 }
 
+// WrappedBeaconState is implemented by states that wrap the fork-specific state (like an upgradeable state does),
+// so that fork-specific interfaces can still be reached through type assertions on the wrapped state.
+type WrappedBeaconState interface {
+	UnwrapBeaconState() BeaconState
+}
+
 type SyncCommitteeBeaconState interface {
 	BeaconState
 	CurrentSyncCommittee() (*SyncCommitteeView, error)
